@@ -178,8 +178,13 @@ def receiveChecks (r : NRef) (port : Nat) (src : String) (d : Bytes) (attack : B
       match stateChecks after r.now with
       | some e => some e
       | none =>
+      -- C15: a peer's expiry is the time of its last announcement / keepalive plus the node's *own* configured peer timeout
+      let ownPt : Int := ((r.cfgOf port "pt").toNat?.getD 0 : Nat)
+      if after.peers.any (fun q => match before.peers.find? (fun p => p.addr = q.addr && p.nodeId = q.nodeId) with
+          | some p => q.timeout ≠ p.timeout && q.timeout ≠ r.now + ownPt
+          | none => q.timeout ≠ r.now + ownPt) then some "C15 peer expiry is not last-heard time + the configured peer timeout"
       -- C10: nothing received is relayed: non-handshake datagrams go back to the sender only
-      if outs.any (fun (_, dst, b) => b.head? ≠ some 255 && dst ≠ src && !b.isEmpty) then some "C10 a received datagram caused a non-handshake datagram to a third party (relaying)"
+      else if outs.any (fun (_, dst, b) => b.head? ≠ some 255 && dst ≠ src && !b.isEmpty) then some "C10 a received datagram caused a non-handshake datagram to a third party (relaying)"
       else if tr.isSome && !outs.isEmpty then some "C10 a received payload datagram caused datagrams on the wire"
       -- C10 / C02: the interface sees only payload of an established peer, byte-identical
       else if !devs.isEmpty && (match tr with
